@@ -8,7 +8,15 @@
                         nextAckSeq++, pendingAcks += (seq, ks); Persister.Persist (under Persister.m,
                         may trigger a flush through the bundle threshold; blocks - action not
                         enabled - while that flush has to wait for the write in flight)
-     ATimer / AFlush    Persister.Flush from the debounce timer / from anyone   (Persister.m)
+     ATimer / AFlush cx Persister.Flush from the debounce timer / from anyone   (Persister.m).
+                        cx = the state of the context the caller hands to Flush(ctx): live, already
+                        done, or expiring while the call waits.  triggerFlush's wait for the write in
+                        flight (`<-p.flush.writeDone`, holding m) does not look at the context, and the
+                        store decides the fate of the transaction whatever context it is given
+                        (AWriteDone's arguments are the environment's): the step is the same for
+                        every cx - which is exactly the claim the theorems make about a forced flush
+                        with a cancelled context (no second write is ever started beside the one in
+                        flight)
      AWriteDone ..      the store finishes the transaction in flight (environment)
      ACallback i        a callback goroutine spawned by flushNow runs: for Source.Ack's callback this is
                         onPersistFlushed(seq, err) (ackMu); for Open's callback only an error is reported
@@ -21,7 +29,9 @@
      AStop s            Source.Stop: the stop signal is passed to the plugin, which answers with the last
                         position it PRODUCED; the answer goes to the caller and nothing of the ack path,
                         the instance state or the persister is touched
-     ATdBegin s         Teardown: tearingDown := true, Persister.Flush
+     ATdBegin s cx      Teardown(ctx): tearingDown := true, Persister.Flush(ctx).  A context that is
+                        done (or expires) only cuts Teardown's two bounded waits short, which
+                        ATdWaited / ATdCancel may do at any instant anyway (timedout)
      ATdWaited s        WaitPendingWritesContext returned (done or timed out), deferredAckClosed := true
      ATdCancel s        waitDeliveryDrain returned (drained or timed out), stopStream()
      ATdDown s fast     the delivery goroutine has exited; plugin.Teardown, plugin := nil,
@@ -45,15 +55,18 @@ Record sstate := mkSS {
 
 Record sys := mkSys { Pst : pstate; Src : conn -> sstate; out : list event (* newest first *) }.
 
+(* the context handed to Persister.Flush / Source.Teardown by the caller *)
+Inductive ctxst := CtxLive | CtxDone | CtxExpiring.
+
 Inductive action :=
 | ARead (s : conn) (r : pos)
 | AAck (s : conn) (ks : list pos)
 | ATimer
-| AFlush
+| AFlush (cx : ctxst)
 | AWriteDone (txok : bool) (fails : list conn) (commitok : bool)
 | ACallback (i : nat)
 | ADeliver (s : conn) (ok : bool)
-| ATdBegin (s : conn)
+| ATdBegin (s : conn) (cx : ctxst)
 | ATdWaited (s : conn)
 | ATdCancel (s : conn)
 | ATdDown (s : conn) (fast : bool)
@@ -127,7 +140,7 @@ Definition step (m : mcfg) (y : sys) (a : action) : option sys :=
         | Some (p', started) => Some (mkSys p' (Src y) (emit (tx_event started) (out y)))
         end
       else None
-  | AFlush =>
+  | AFlush _ =>
       match trigger_flush (Pst y) with
       | None => None
       | Some (p', started) => Some (mkSys p' (Src y) (emit (tx_event started) (out y)))
@@ -178,7 +191,7 @@ Definition step (m : mcfg) (y : sys) (a : action) : option sys :=
                                             (closed x) (tearing x) (streamOpen x) (pc x) (timedout x) (lastRead x)))
                         (emit [ESendFail s n] (out y)))
       end
-  | ATdBegin s =>
+  | ATdBegin s _ =>
       let x := Src y s in
       if (s <? nsrc c) && plug x && (pc x =? 0) then
         match trigger_flush (Pst y) with
